@@ -582,13 +582,22 @@ async fn run_send(enumerated: bool) {
         let sig2 = sig.clone();
         sim::set_hang_classifier(Box::new(move || sig2.get().to_string()));
     }
+    // by value or by reference (the *_ref variants serialise from a borrowed Sendable)
+    let by_ref = choice(3) == 0;
+    sim::append_config(&format!(" send_ref={}", by_ref));
+    let sendables: Vec<fe2o3_amqp::Sendable<Body<Value>>> = msgs_v.iter().map(|m| fe2o3_amqp::Sendable::from(m.clone())).collect();
     for j in 0..N_MSGS {
         let is_last = j + 1 == N_MSGS;
         let cancel = if plan.enumerated { j == plan.target && !is_last } else { !is_last && choice(3) != 0 };
         if cancel {
             let (k, at_wake) = if plan.enumerated { (plan.k, plan.at_wake) } else { (1 + choice(5), choice(2) == 1) };
             let before = send_counters();
-            match sim::op(&format!("cancelled send {}", j), poll_limited(s.send(msgs_v[j as usize].clone()), k, at_wake)).await {
+            let r = if by_ref {
+                sim::op(&format!("cancelled send_ref {}", j), poll_limited(s.send_ref(&sendables[j as usize]), k, at_wake)).await
+            } else {
+                sim::op(&format!("cancelled send {}", j), poll_limited(s.send(msgs_v[j as usize].clone()), k, at_wake)).await
+            };
+            match r {
                 Some(Lim::Dropped) => {
                     cancelled_uids.push(100 + j);
                     sim::fault("send-future-dropped");
@@ -616,7 +625,8 @@ async fn run_send(enumerated: bool) {
                 None => return,
             }
         } else {
-            match sim::op(&format!("send {}", j), s.send(msgs_v[j as usize].clone())).await {
+            let r = if by_ref { sim::op(&format!("send_ref {}", j), s.send_ref(&sendables[j as usize])).await } else { sim::op(&format!("send {}", j), s.send(msgs_v[j as usize].clone())).await };
+            match r {
                 Some(Ok(_)) => {}
                 Some(Err(e)) => {
                     sim::violation_sig("send-error", sig.get(), format!("send {} (after {} cancelled sends) failed: {:?}", j, cancelled_uids.len(), e));
